@@ -158,4 +158,5 @@ func TestC07(t *testing.T) {
 	}
 	c07Concurrent(run, r)
 	c07CloseWindow(run)
+	c07RegistrationWindow(run)
 }
